@@ -26,7 +26,8 @@ META = {
             "subdirectory with contents v1/v2/broken, checking handles = Ideal(directory history) and that unloaded programs "
             "receive no line; every enumerated history (<=4 ops, quick 3, plus simulated longer ones) is replayed on a real program "
             "directory and Runtime, observing the running version through a version-stamped gauge.",
-    "note": "Unreadable files (open errors), symlinks and a program path that is a single file are not in the history alphabet.",
+    "note": "A NEW directory entry that cannot be opened (a dangling symlink) is in the alphabet; other symlinks and a program path that "
+            "is a single file are not.",
     "technique": "TLA+ spec + TLC exhaustive/simulated directory histories replayed into the real runtime (direction A); thorough: hook traces of the repository's runtime/program-load tests validated by spec/TraceRuntime.tla (direction B)",
     "design_ref": "DESIGN.md 5/C26, Appendix A.4",
 }
